@@ -3,6 +3,7 @@
   `OrderBookParticipation.CalculateMaxLoss`) = the model's `setMaxLoss`.
 -/
 import Sge.Gen.Kernels
+import SgeProofs.Lemmas.KernelsTie
 import Sge.Core.Orderbook
 namespace Sge.KernelsTie
 open Sge Sge.Core Sge.Gen.Kernels
@@ -18,16 +19,10 @@ theorem krn_tie_SetMaxLoss (p : Part) (e : PExp) (o : Nat) (bAmt : Int) :
                         e.exposure e.bet o bAmt).1,
         crMaxLossOdds := (orderbook_OrderBookParticipation_setMaxLoss p.crTotalBet p.crMaxLoss false p.crMaxLossOdds
                         e.exposure e.bet o bAmt).2 } := by
-  unfold setMaxLoss orderbook_OrderBookParticipation_setMaxLoss orderbook_ParticipationExposure_CalculateMaxLoss
-    orderbook_OrderBookParticipation_CalculateMaxLoss
-  simp only [Bool.false_eq_true, if_false, beq_iff_eq, gt_iff_lt]
-  (repeat' split) <;> first | rfl | (exfalso; omega) | (simp only [Part.mk.injEq, true_and, and_true] <;> omega)
-
-/-- what the nil flag selects: a nil `CurrentRoundMaxLoss` is simply overwritten -/
-theorem krn_SetMaxLoss_nil (tb ml : Int) (oo : Nat) (ex bet : Int) (o : Nat) (bAmt : Int) :
-    orderbook_OrderBookParticipation_setMaxLoss tb ml true oo ex bet o bAmt = (ex + bet - tb, o) := by
-  unfold orderbook_OrderBookParticipation_setMaxLoss orderbook_ParticipationExposure_CalculateMaxLoss
-  simp only [if_true]
+  unfold setMaxLoss orderbook_OrderBookParticipation_setMaxLoss
+  try unfold orderbook_ParticipationExposure_CalculateMaxLoss
+  try unfold orderbook_OrderBookParticipation_CalculateMaxLoss
+  krn_close [Part.mk.injEq]
 
 example : orderbook_OrderBookParticipation_setMaxLoss 50 10 false 1 100 50 2 20 = (100, 2) ∧
     orderbook_OrderBookParticipation_setMaxLoss 50 300 false 1 100 50 2 20 = (280, 1) := by decide +kernel
